@@ -23,6 +23,8 @@ def run(tier, seed):
     core.proof_section(rep, pid, trusted_extra=["the conversion loop is written once over an abstract arithmetic (Sketch/ChangeMappingG.v): the conservation/support theorems are about its exact instance (proved equal to the ideal model), the sign/overlap theorems about its binary64 instance, which this run compares call by call with the implementation; the combined quantile accuracy is validated by this run's exact-rational oracle"])
     alphas = [0.01, 0.02, 0.05, 0.005, 0.1]
     specs = ["%s:a:%s" % (k, f2h(a)) for k in ("log", "lin", "cub") for a in alphas]
+    coarse = ["%s:a:%s" % (k, f2h(0.5)) for k in ("log", "lin", "cub")]; fine = ["%s:a:%s" % (k, f2h(2e-4)) for k in ("log", "cub")]
+    specs += coarse + fine
     facts = sketchcheck.learn_specs(pid, specs)
     sibs = {}
     for sp, f in list(facts.items()):
@@ -35,6 +37,7 @@ def run(tier, seed):
         s1, s2 = rng.choice(sorted(facts)), rng.choice(sorted(facts))
         if rng.random() < 0.15: s2 = s1
         if rng.random() < 0.15 and s1 in sibs: s2 = rng.choice(sibs[s1])          # same kind and base, another index offset: a different mapping (bins renumbered)
+        if rng.random() < 0.04 and fine: s1, s2 = rng.choice(coarse), rng.choice(fine)
         f1, f2 = facts[s1], facts[s2]
         c = rng.random()
         if (s1 == s2 or (s1 in sibs and s2 in sibs[s1])) and c < 0.4: scale = 1.0
@@ -42,9 +45,10 @@ def run(tier, seed):
         elif c < 0.6: scale = 1.0 / f1["gamma"]
         else: scale = 10 ** rng.uniform(-3, 3)
         exact = rng.random() < 0.3
+        wide = s1 in coarse and s2 in fine
         k1 = (rng.choice(STORES), rng.choice(STORES)); k2 = (rng.choice(["sparse", "pag", "sparse", "dense"]), rng.choice(["sparse", "pag"]))
         b = Builder("m%d" % i); b.knew("s", s1, k1[0], k1[1], exact)
-        for v in rand_values(rng, rng.choice([1, 3, 10, 40, 120]), -1, 2, zeros=0.1): b.kadd("s", v, rng.choice([None, None, None, 2.0, 0.5]))
+        for v in rand_values(rng, rng.choice([1, 2, 3]) if wide else rng.choice([1, 3, 10, 40, 120]), -1, 2, zeros=0.1): b.kadd("s", v, rng.choice([None, None, None, 2.0, 0.5]))
         j0 = b.emit("kobs s")
         # lockstep with the float-level model (Sketch/ChangeMappingG.v over the bit-exact mappings): every AddWithCount call the conversion makes
         jt = b.emit("kchtrace s %s %s" % (s2, f2h(scale)))
